@@ -11,7 +11,8 @@ unwrap, AES-ECB, AES-CBC) - never through spsdk.crypto.
 
 Also run by runpy inside a process forked from a harness process that has pre-imported third-party modules but nothing of spsdk.
 job    = {"repo": path, "dir": workdir, "keys": keydir, "hab": habdir, "user": {field: hex}, "fake_rng": ""|"const"|"cycle:N",
-          "steps": [{"op":"Construct","art":n,"kind":K,"how":H,"ex":[fields]} | {"op":"Export","art":n}]}
+          "steps": [{"op":"Construct","art":n,"kind":K,"how":H,"ex":[fields]} | {"op":"Export","art":n}
+                    | {"op":"Reconfigure","art":n,"of":m,"kind":K,"how":"config","ex":[fields]}   (the OBJECT of artefact m is configured again)]}
 result = {"import_draws":[n,...], "steps":[{"op":..,"art":n,"fields":{name: hex}, "ctr":[keyhex,noncehex]|[], "draws":[[phase,n,hex]..]} | {"op":..,"error":..}]}
 """
 import json
@@ -246,6 +247,12 @@ def mbi_config(n, ex):
     cls = get_mbi_class(cfg)
     obj = cls()
     obj.load_from_config(cfg, search_paths=[job["dir"]])
+    return obj
+
+
+def mbi_reconfig(obj, n, ex):
+    """The SAME object goes through its load_from_config again: another application, the user-supplied fields of this configuration."""
+    obj.load_from_config(_mbi_cfg(n, ex), search_paths=[job["dir"]])
     return obj
 
 
@@ -532,6 +539,8 @@ BUILD = {
     ("HAB", "config"): hab_config, ("HABRT", "ctor"): habrt_ctor,
     ("HEX", "call"): hex_call,
 }
+# kinds whose load_from_config is a method of the object (Reconf of spec/C17/Fresh.tla)
+RECONFIG = {"MBI": mbi_reconfig}
 
 
 def attrs(kind, obj):
@@ -586,6 +595,13 @@ for i, st in enumerate(job["steps"]):
             obj = BUILD[(st["kind"], st["how"])](st.get("variant", st["art"]), st["ex"])
             ARTS[st["art"]] = (st["kind"], obj)
             f, ctr = attrs(st["kind"], obj)
+        elif st["op"] == "Reconfigure":
+            kind, obj = ARTS.pop(st["of"])  # the object holds the new artefact from now on
+            if kind != st["kind"]:
+                raise RuntimeError(f"artefact {st['of']} is {kind}, not {st['kind']}")
+            obj = RECONFIG[kind](obj, st.get("variant", st["art"]), st["ex"])
+            ARTS[st["art"]] = (kind, obj)
+            f, ctr = attrs(kind, obj)
         else:
             kind, obj = ARTS[st["art"]]
             f, ctr = export(kind, obj)
